@@ -2,9 +2,20 @@
    Model: model/Meta.v (every schedule of request micro-steps, Notify goroutines, persist
    steps, SIGKILLs and restarts).  Proofs: proofs/MetaProofs.v. *)
 From Coq Require Import List NArith Bool Arith.
-From NSQV Require Import model.Judge model.Names model.Meta proofs.MetaProofs proofs.MetaPause.
+From NSQV Require Import gen.MetaShape model.Judge model.Names model.MetaSrc model.Meta proofs.MetaProofs proofs.MetaPause.
 Import ListNotations.
 Open Scope nat_scope.
+
+(* The source text (gen/MetaShape.v, regenerated from the repository on every run) has the
+   shape the model is written against: open(O_WRONLY|O_CREATE|O_TRUNC) tmp, write, fsync
+   unless the write failed, close, rename tmp -> nsqd.dat; deletions remove from the map and
+   THEN persist; pause handlers flip and THEN persist under the lock; Notify hands over and
+   THEN persists; GetMetadata(false) skips ephemeral topics and channels; LoadMetadata skips
+   invalid names; start-up is load, persist, serve.  [step] itself is defined from this
+   table (model/Meta.v [pad_src]), so the theorems below are about the source as it is now. *)
+Theorem C06_source_shape : shape_ok = true /\ step = step_ true.
+Proof. exact (conj shape_ok_true step_fixed). Qed.
+Print Assumptions C06_source_shape.
 
 (* At every instant of every schedule -- a kill may fall between any two steps, also inside
    the write and during the start-up persist; any number of restart cycles -- nsqd.dat is
